@@ -124,12 +124,22 @@ func runC15(c *core.Ctx) {
 		if r.Intn(12) == 0 {
 			// loading is a mutation like any other (and one more path on which a
 			// cached size or cached view has to be invalidated)
-			o := d.Fresh()
-			o.build(c, r.Range(0, 12))
-			if data, err := o.JSON.ToJSON(); err == nil {
+			if r.Bool() && d.GenDoc != nil {
+				// a document some other producer wrote: repeated keys, values
+				// repeated under different keys (what a bidirectional map has to
+				// resolve), arbitrary member order
+				data := d.GenDoc(r, r.Range(0, 12), r.Bool(), true)
 				c.Begin(kind, "FromJSON", string(data))
 				d.JSON.FromJSON(data)
-				c.Count("obs:loads-inside-histories", 1)
+				c.Count("obs:loads-of-foreign-documents-inside-histories", 1)
+			} else {
+				o := d.Fresh()
+				o.build(c, r.Range(0, 12))
+				if data, err := o.JSON.ToJSON(); err == nil {
+					c.Begin(kind, "FromJSON", string(data))
+					d.JSON.FromJSON(data)
+					c.Count("obs:loads-inside-histories", 1)
+				}
 			}
 		} else {
 			d.Mutate(c)
@@ -212,6 +222,8 @@ func init() {
 			"Every case is non-trivial (>= 10 mutating calls and a Clear); distinct = distinct hash of the call list.",
 		Floors: func(tier string, m map[string]int64) []string {
 			f := &floorCheck{m: m}
+			f.atLeast("obs:loads-of-foreign-documents-inside-histories", 5000)
+			f.atLeast("obs:loads-inside-histories", 5000)
 			f.atLeast("obs:agreement", 200000)
 			f.atLeast("obs:String", 30000)
 			f.atLeast("obs:cleared-vs-fresh", 50000)
